@@ -225,13 +225,36 @@ func ruleF2I(c *Ctx) {
 					return
 				}
 				// a helper extracted from a tabled function: every caller is tabled for this sink
+				// (also through several levels, and through the entries of a package-level function table)
+				var tabledVia func(g *ssa.Function, depth int) (string, bool)
+				tabledVia = func(g *ssa.Function, depth int) (string, bool) {
+					if w, ok := f2iTable[fnKey(g)+"->"+sink]; ok {
+						return w, true
+					}
+					if w, ok := f2iTable[fnKey(g)]; ok {
+						return w, true
+					}
+					if depth >= 3 {
+						return "", false
+					}
+					callers := f2iCallers(c, short, g)
+					if len(callers) == 0 {
+						return "", false
+					}
+					reason := ""
+					for _, cal := range callers {
+						w, ok := tabledVia(cal, depth+1)
+						if !ok {
+							return "", false
+						}
+						reason = w
+					}
+					return reason, true
+				}
 				if callers := f2iCallers(c, short, fn); len(callers) > 0 {
 					all, reason := true, ""
 					for _, cal := range callers {
-						w, ok := f2iTable[fnKey(cal)+"->"+sink]
-						if !ok {
-							w, ok = f2iTable[fnKey(cal)]
-						}
+						w, ok := tabledVia(cal, 1)
 						if !ok {
 							all = false
 						}
@@ -269,6 +292,15 @@ func f2iCallers(c *Ctx, short string, fn *ssa.Function) []*ssa.Function {
 				out = append(out, g)
 			}
 		})
+	}
+	// calls through an entry of a package-level function table that holds fn
+	for _, cl := range resultCallsOf(fn) {
+		if in, ok := cl.(ssa.Instruction); ok {
+			if g := in.Parent(); g != nil && !seen[g] && g != fn {
+				seen[g] = true
+				out = append(out, g)
+			}
+		}
 	}
 	return out
 }
@@ -313,6 +345,18 @@ func onlyToReflectValueOf(cv *ssa.Convert) bool {
 					return false
 				}
 				ends++
+			case *ssa.Return:
+				// handed back to the callers: every call that can reach this function (a static call, or a call
+				// through the entry of a package-level function table that holds it) must use the result the same way
+				calls := resultCallsOf(x.Parent())
+				if len(calls) == 0 {
+					return false
+				}
+				for _, cl := range calls {
+					if !walk(cl) {
+						return false
+					}
+				}
 			default:
 				return false
 			}
@@ -320,6 +364,54 @@ func onlyToReflectValueOf(cv *ssa.Convert) bool {
 		return true
 	}
 	return walk(cv) && ends > 0
+}
+
+// resultCallsOf: the call instructions of fn's package whose callee can be fn: static calls, and calls through an
+// entry of a package-level function table (tables.go) that contains fn. nil when fn may be called in some other way
+// (its value is used elsewhere).
+func resultCallsOf(fn *ssa.Function) []ssa.Value {
+	if fn == nil || curCtx == nil || fn.Pkg == nil {
+		return nil
+	}
+	short := strings.TrimPrefix(strings.TrimPrefix(fn.Pkg.Pkg.Path(), modPath), "/")
+	var out []ssa.Value
+	for _, g := range curCtx.srcFuncs(short) {
+		allInstrs(g, func(in ssa.Instruction) {
+			call, ok := in.(*ssa.Call)
+			if !ok {
+				return
+			}
+			if call.Call.StaticCallee() == fn {
+				out = append(out, call)
+				return
+			}
+			if call.Call.StaticCallee() != nil || call.Call.IsInvoke() {
+				return
+			}
+			ft, _, field, _ := curCtx.tableLookupOf(call.Call.Value)
+			if ft == nil {
+				return
+			}
+			holds := false
+			if field >= 0 {
+				for _, fs := range ft.fields {
+					if fs[field] == fn {
+						holds = true
+					}
+				}
+			} else {
+				for _, f := range ft.fns {
+					if f == fn {
+						holds = true
+					}
+				}
+			}
+			if holds {
+				out = append(out, call)
+			}
+		})
+	}
+	return out
 }
 
 // onlyTested: every use of the converted value is a comparison, or its appearance as an argument of an
